@@ -42,9 +42,9 @@ struct St
 
 enum { F_SHORT = 0, F_FLIP, F_DROP, F_DUP, F_NUL, F_OPEN, F_TRUNC };
 const char *fault_names[] = {"short_read", "flipped_byte", "dropped_byte", "duplicated_byte", "nul_byte", "open_failure", "file_truncated", nullptr};
-enum { P_DOC = 0, P_RTERR, P_TREE_EQUAL, P_TRUNC_IN_STRING, P_TRUNC_IN_COMMENT, P_RAW_ACCEPTED, P_DEPTH_GE4, P_SHORT_READ_HIT, P_TRUNC_AFTER_BACKSLASH, P_PRE_GE8, P_BIG_FILE, P_SOAK, P_SOAK_ACCEPTED };
+enum { P_DOC = 0, P_RTERR, P_TREE_EQUAL, P_TRUNC_IN_STRING, P_TRUNC_IN_COMMENT, P_RAW_ACCEPTED, P_DEPTH_GE4, P_SHORT_READ_HIT, P_TRUNC_AFTER_BACKSLASH, P_PRE_GE8, P_BIG_FILE, P_SOAK, P_SOAK_ACCEPTED, P_STRETCH };
 const char *probe_names[] = {"returned_document", "threw_runtime_error", "tree_compared_equal", "truncated_inside_quoted_string",
-                             "truncated_inside_comment", "raw_bytes_accepted_as_document", "tree_depth_ge_4", "short_read_refused_bytes", "cut_right_after_a_backslash", "eight_or_more_rejected_reads_before_the_document", "file_of_64KiB_or_more", "same_incomplete_copy_read_200_to_1600_times_first", "incomplete_copy_accepted_500_times_or_more", nullptr};
+                             "truncated_inside_comment", "raw_bytes_accepted_as_document", "tree_depth_ge_4", "short_read_refused_bytes", "cut_right_after_a_backslash", "eight_or_more_rejected_reads_before_the_document", "file_of_64KiB_or_more", "same_incomplete_copy_read_200_to_1600_times_first", "incomplete_copy_accepted_500_times_or_more", "one_element_far_larger_than_the_rest", nullptr};
 
 const char IDCH1[] = "abcXYZ_";
 const char IDCH[] = "abcxyzABC019_.";
@@ -124,6 +124,93 @@ void gen_tree(GNode &n, int depth, int maxdepth, int maxfan, int &budget)
       gen_tree(n.child.back(), depth + 1, maxdepth, maxfan, budget);
     }
   }
+}
+
+// deterministic filler of n characters from an alphabet; never starts or ends with white space
+std::string filler(size_t n, const char *alphabet, unsigned seed)
+{
+  size_t na = strlen(alphabet);
+  std::string s;
+  s.reserve(n);
+  unsigned x = seed * 2654435761u + 12345u;
+  for (size_t i = 0; i < n; i++) {
+    x = x * 1664525u + 1013904223u;
+    char c = alphabet[(x >> 16) % na];
+    if ((i == 0 || i + 1 == n) && (c == ' ' || c == '\t'))
+      c = 'e';
+    s += c;
+  }
+  return s;
+}
+
+// one element of the document far larger than the rest: long value / text / name, a deep chain, many siblings, many properties
+void stretch(GNode &top)
+{
+  static const int sizes[] = {255, 256, 1023, 1024, 4095, 4097, 65535, 65537};
+  unsigned kind = sim_plan(7);
+  size_t sz = (size_t)sizes[sim_plan(8)];
+  unsigned seed = sim_plan(1000);
+  switch (kind) {
+  case 0: top.props.emplace_back("longv", filler(sz, "abc XYZ 019 .,:;/<>&=+-_()[]{}!?#%*", seed)); break;
+  case 1: {
+    // a value made of escapes: backslash + character pairs, kept verbatim by the reader
+    std::string v;
+    for (size_t i = 0; i < sz / 2; i++) {
+      v += '\\';
+      v += "\"'\\nx<"[(seed + i) % 6];
+    }
+    top.props.emplace_back("longe", v);
+    break;
+  }
+  case 2: {
+    GNode c;
+    c.name = "longc";
+    c.content = filler(sz, "abc xyz 019 .,:;/>&=+-_()'\"[]{}!?#%*\t", seed);
+    top.child.push_back(c);
+    break;
+  }
+  case 3: {
+    GNode c;
+    c.name = "n" + filler(sz, "abcxyzABC019_.", seed);
+    top.child.push_back(c);
+    break;
+  }
+  case 4: {
+    static const int depths[] = {30, 60, 100};
+    int d = depths[seed % 3];
+    GNode chain;
+    chain.name = "d";
+    GNode *cur = &chain;
+    for (int i = 1; i < d; i++) {
+      cur->child.emplace_back();
+      cur->child.back().name = "d";
+      cur = &cur->child.back();
+    }
+    top.child.push_back(chain);
+    if (d + 1 > st->depth_max)
+      st->depth_max = d + 1;
+    break;
+  }
+  case 5: {
+    static const int fans[] = {100, 300, 1000};
+    int nf = fans[seed % 3];
+    for (int i = 0; i < nf; i++) {
+      GNode c;
+      c.name = "w";
+      if (i % 17 == 0)
+        c.content = "t" + std::to_string(i);
+      top.child.push_back(c);
+    }
+    break;
+  }
+  default: {
+    int np = seed % 2 ? 200 : 50;
+    for (int i = 0; i < np; i++)
+      top.props.emplace_back("p" + std::to_string(i), "v" + std::to_string(i * 7));
+    break;
+  }
+  }
+  sim_probe(P_STRETCH);
 }
 
 std::string gen_comment()
@@ -231,6 +318,8 @@ void do_plan(int tier)
       if (sim_plan(4) == 0)
         text += gen_comment() + gen_ws(false);
       gen_tree(tops[i], 1, tier ? 6 : 4, 4, budget);
+      if (sim_plan(10) == 0)
+        stretch(tops[i]);
       serialise(tops[i], text);
       text += gen_ws(false);
       canon(tops[i], st->expect_canon);
